@@ -3,6 +3,7 @@ package exec
 import (
 	"sort"
 
+	"github.com/ChrisTrenkamp/xsel/node"
 	"github.com/ChrisTrenkamp/xsel/store"
 )
 
@@ -149,7 +150,9 @@ func appendFollowing(cursor store.Cursor, result []store.Cursor) []store.Cursor 
 		return result
 	}
 
-	found := false
+	_, isAttribute := cursor.Node().(node.Attribute)
+	_, isNamespace := cursor.Node().(node.Namespace)
+	found := isAttribute || isNamespace
 
 	for _, i := range parent.Children() {
 		if i.Pos() == cursor.Pos() {
